@@ -23,7 +23,7 @@ REQUIRED = ['treeOK_of_disciplined', 'tree_discipline', 'run_discipline', 'leaf_
             'sessionWith_ok', 'farcallBody_ok', 'farcallFile_ok',
             'calm_step', 'sem_load', 'sem_moveTo', 'sem_setVar', 'wallLoop_out', 'sem_wallLoop', 'trenchBlock_split', 'wallPrefix_inv',
             'wallPrefix_ready', 'wallPart_depth', 'transform_z', 'depth_rounding', 'pass_depth_error',
-            'semF_remove', 'semF_load', 'semF_farcall', 'floorPrefix_at_depth', 'trenchBlock_depths']
+            'semF_remove', 'semF_load', 'semF_farcall', 'floorPrefix_at_depth', 'trenchBlock_depths', 'semF_moveToXY', 'bedBlock_keeps_depth']
 RULE = ('1..3 trench columns (or U-trench columns with 0..2 pillars) are dug with the real API from layouts of straight / tilted / S-bent '
         'guides (some leaving a neck that splits when inset), with random box counts, box height, z offset <= 0, deltaz, floor spacing, '
         'speeds, power-axis settings and base folders, and exported by the real TrenchWriter / UTrenchWriter.pgm() under random compiler '
